@@ -75,7 +75,16 @@ func genC15(seed int64, tier string) *Scenario {
 	reqN := 0
 	addReq := func(fc *faultClass) {
 		o := Op{Kind: "request", Path: fmt.Sprintf("/r%d", reqN), Delay: time.Duration(10+rng.Intn(50)) * time.Millisecond}
+		// body sizes on both sides of the buffers between target and client (net/http's 2 KiB
+		// chunk writer and 4 KiB connection buffer, the 32 KiB copy buffer, the memory limit
+		// of the response buffer): what a cut leaves behind depends on how much was through
 		size := 40 + rng.Intn(200)
+		switch rng.Intn(3) {
+		case 1:
+			size = 3000 + rng.Intn(9000)
+		case 2:
+			size = 20000 + rng.Intn(50000)
+		}
 		sim := fmt.Sprintf("size=%d;close;", size)
 		dial := ""
 		if fc != nil {
